@@ -35,7 +35,16 @@ func c10Run(w *W) {
 	w.SetShape("asyncdial", asyncDial)
 
 	mn := w.UseMsgNet()
-	nt := w.UseNet(NetCfg{})
+	mute := (tran == "sim" || tran == "simipc" || tran == "tcp" || tran == "ipc") && w.Choose(simrt.SShape, 3) == 0
+	ncfg := NetCfg{}
+	inflightBody := []byte("inflight")
+	if mute {
+		// (small connection buffers and messages larger than them, so that a
+		// writer really blocks towards the peer that never reads)
+		ncfg.BufCap = 64
+		inflightBody = patBody("inflight", 700)
+	}
+	nt := w.UseNet(ncfg)
 	s := w.Sock(kind)
 	var all []mangos.Socket
 	all = append(all, s)
@@ -139,6 +148,18 @@ func c10Run(w *W) {
 			w.Fault("hs-stall")
 		}
 	}
+	// a peer that completes the handshake and then never reads: whatever is sent
+	// towards it fills the connection and leaves a writer of the library blocked
+	// in the middle of a message when the close under test happens
+	if mute {
+		if c, err := nt.Dial(NetKey(laddr)); err == nil {
+			c.Write(wcHeader(protoOf(peerKind[kind])))
+			stalled = append(stalled, c)
+			w.Go("mute peer", func() { wcReadHeader(c) })
+			w.Fault("backpressure")
+			w.Probe("peer-attached-that-never-reads")
+		}
+	}
 	// a dialer towards nobody (redial timers pending) or towards a staller
 	daddr := w.Addr(tran)
 	var d mangos.Dialer
@@ -184,9 +205,9 @@ func c10Run(w *W) {
 		case isRecv:
 			label, fn = "Recv", func() (interface{}, error) { return s.Recv() }
 		case onCtx:
-			label, fn = "ctx.Send", func() (interface{}, error) { return nil, ctx.Send([]byte("inflight")) }
+			label, fn = "ctx.Send", func() (interface{}, error) { return nil, ctx.Send(inflightBody) }
 		default:
-			label, fn = "Send", func() (interface{}, error) { return nil, SendBody(s, kind, []byte("inflight")) }
+			label, fn = "Send", func() (interface{}, error) { return nil, SendBody(s, kind, inflightBody) }
 		}
 		fl = append(fl, inflight{w.Do(fmt.Sprintf("%s#%d", label, i), fn), onCtx})
 	}
